@@ -67,7 +67,37 @@ func c09RuleText(r *rng) string {
 	v := pick(r, c09Values)
 	if r.chance(1, 6) {
 		v = pick(r, c09NoHandlerValues)
+	} else if r.chance(1, 3) {
+		// generated (gen_n2.go): every shape, numeric fields up to 65535, hosts differing in letter case, 0-9 SVCB parameters
+		v = n2GenRewrite(r)
 	}
+
+	return c09RuleOf(r, v)
+}
+
+// c09NearText: the rule text t with ONE component of its $dnsrewrite value changed (another letter case of the CNAME /
+// exchange / target, another priority, weight, port, preference, parameter, address group, record type, rcode spelling),
+// as a rule or as an exception, with or without $important.
+func c09NearText(r *rng, t string) string {
+	body := strings.TrimPrefix(t, "@@")
+	body = strings.TrimSuffix(body, ",important")
+	i := strings.Index(body, "$dnsrewrite")
+	if i < 0 {
+		return t
+	}
+	v := strings.TrimPrefix(body[i+len("$dnsrewrite"):], "=")
+	for try := 0; try < 6; try++ {
+		w := n2MutRewrite(r, v)
+		nt := c09RuleOf(r, w)
+		if _, err := rules.NewNetworkRule(nt, 1); err == nil && w != v {
+			return nt
+		}
+	}
+
+	return c09RuleOf(r, v)
+}
+
+func c09RuleOf(r *rng, v string) string {
 	t := "||e.org^$dnsrewrite"
 	if v != "" || r.chance(1, 2) {
 		t += "=" + v
@@ -176,6 +206,9 @@ func genC09Rewrites(r *rng, n int, w *bufio.Writer) {
 			case r.chance(1, 12):
 				// a rule without $dnsrewrite (must be ignored)
 				ts = append(ts, pick(r, []string{"||e.org^", "@@||e.org^", "||e.org^$important", "@@||e.org^$important"}))
+			case len(ts) > 0 && r.chance(1, 5):
+				// a near-twin of an earlier element: ONE component of the value differs
+				ts = append(ts, c09NearText(r, pick(r, ts)))
 			case len(ts) > 0 && r.chance(1, 3):
 				// the exception / rule counterpart of an earlier element
 				t := pick(r, ts)
